@@ -300,7 +300,11 @@ pub fn run_layout(ctx: &mut Ctx, marks: bool) {
         if done >= n {
             break;
         }
-        let plan = if it % 4 == 3 { gen::layout_verdict_plan(&mut ctx.rng.fork()) } else { gen::layout_plan(&mut ctx.rng.fork(), it % 2 == 0, (it % 3) as usize) };
+        let plan = if it % 8 == 5 {
+            gen::case_read_plan(&mut ctx.rng.fork(), it % 16 == 5)
+        } else if it % 4 == 3 {
+            gen::layout_verdict_plan(&mut ctx.rng.fork())
+        } else { gen::layout_plan(&mut ctx.rng.fork(), it % 2 == 0, (it % 3) as usize) };
         if plan.nodes.len() > 150 {
             continue;
         }
